@@ -70,6 +70,12 @@ Definition rel_import (cur imp : list N) : list N :=
 Definition abs_import (cur imp : list N) : list N :=
   if normalise_import then norm_dots (rel_import cur imp) else rel_import cur imp.
 
+(* as found in the source: with [main_in_root] the main grammar's own name is not parsed for a
+   folder part (its file name may contain dots) *)
+Definition abs_import_src (main cur imp : list N) : list N :=
+  if main_in_root && str_eqb cur main then (if normalise_import then norm_dots imp else imp)
+  else abs_import cur imp.
+
 (* s.split(".", 1) when "." in s *)
 Fixpoint split1 (s : list N) : option (list N * list N) :=
   match s with
@@ -105,7 +111,9 @@ End Assoc.
 (* A rule: its name, the names used as rule references / assignment right-hand sides
    (unqualified or fully qualified), and the class names of its [Class] link references. *)
 Record rule := { rname : list N; rrefs : list (list N); rcrefs : list (list N) }.
-Record gfile := { gimports : list (list N); grules : list rule }.
+(* grefs: the `reference <language> as <alias>` statements (alias, language); the model places them
+   before the import statements of the file *)
+Record gfile := { grefs : list (list N * list N); gimports : list (list N); grules : list rule }.
 (* the folder of the main grammar: namespace name (dotted path relative to it) -> file *)
 Notation fsys := (list (list N * gfile)) (only parsing).
 
@@ -138,12 +146,14 @@ Record st := {
   done : list (list N);                           (* log: grammars whose second pass finished *)
   links : list link;                              (* log: every reference resolved by a second pass *)
   backs : list (list N * list N);                 (* log: (importer, imported) where imported was still being loaded *)
+  reflangs : list (list N * list N);              (* self.referenced_languages: alias -> language *)
+  slangs : list (list N * list (list N));         (* registered languages: name -> rule names of its meta-model *)
   serr : option error }.
 
 Definition has_err (s : st) : bool := match serr s with Some _ => true | None => false end.
 Definition set_err (e : error) (s : st) : st :=
   {| spaces := spaces s; imported := imported s; created := created s; loads := loads s;
-     done := done s; links := links s; backs := backs s; serr := Some e |}.
+     done := done s; links := links s; backs := backs s; reflangs := reflangs s; slangs := slangs s; serr := Some e |}.
 
 Definition base_names : list (list N) :=
   [ [73;68]; [83;84;82;73;78;71]; [66;79;79;76]; [73;78;84]; [70;76;79;65;84];
@@ -157,9 +167,10 @@ Definition base_dict : list (list N * cls) :=
   map (fun p => (snd p, {| c_id := fst p; c_ns := BASE; c_name := snd p |})) (number_from 0 base_names).
 
 (* TextXMetaModel.__init__ up to (not including) entering the main namespace *)
-Definition init : st :=
+Definition init_with (langs : list (list N * list (list N))) : st :=
   {| spaces := [(BASE, base_dict)]; imported := [(BASE, initial_imports)]; created := length base_names;
-     loads := []; done := []; links := []; backs := []; serr := None |}.
+     loads := []; done := []; links := []; backs := []; reflangs := []; slangs := langs; serr := None |}.
+Definition init : st := init_with [].
 
 Definition has_ns (s : st) (ns : list N) : bool :=
   match aget ns (spaces s) with Some _ => true | None => false end.
@@ -168,24 +179,24 @@ Definition has_ns (s : st) (ns : list N) : bool :=
 Definition enter (ns : list N) (s : st) : st :=
   {| spaces := spaces s ++ [(ns, [])]; imported := imported s ++ [(ns, initial_imports)];
      created := created s; loads := loads s; done := done s; links := links s; backs := backs s;
-     serr := serr s |}.
+     reflangs := reflangs s; slangs := slangs s; serr := serr s |}.
 
 Definition add_imported (cur a : list N) (s : st) : st :=
   {| spaces := spaces s; imported := aupd cur (fun l => l ++ [a]) (imported s);
      created := created s; loads := loads s; done := done s; links := links s; backs := backs s;
-     serr := serr s |}.
+     reflangs := reflangs s; slangs := slangs s; serr := serr s |}.
 
 Definition note_back (cur a : list N) (s : st) : st :=
   {| spaces := spaces s; imported := imported s; created := created s; loads := loads s;
-     done := done s; links := links s; backs := backs s ++ [(cur, a)]; serr := serr s |}.
+     done := done s; links := links s; backs := backs s ++ [(cur, a)]; reflangs := reflangs s; slangs := slangs s; serr := serr s |}.
 
 Definition log_load (ns : list N) (s : st) : st :=
   {| spaces := spaces s; imported := imported s; created := created s; loads := loads s ++ [ns];
-     done := done s; links := links s; backs := backs s; serr := serr s |}.
+     done := done s; links := links s; backs := backs s; reflangs := reflangs s; slangs := slangs s; serr := serr s |}.
 
 Definition log_done (ns : list N) (s : st) : st :=
   {| spaces := spaces s; imported := imported s; created := created s; loads := loads s;
-     done := done s ++ [ns]; links := links s; backs := backs s; serr := serr s |}.
+     done := done s ++ [ns]; links := links s; backs := backs s; reflangs := reflangs s; slangs := slangs s; serr := serr s |}.
 
 (* visit_rule_name -> _new_class -> _init_class: a fresh class stored under its name in the
    current namespace *)
@@ -194,8 +205,21 @@ Definition new_class (ns : list N) (r : rule) (s : st) : st :=
   let c := {| c_id := created s; c_ns := ns; c_name := rname r |} in
   {| spaces := aupd ns (aset (rname r) c) (spaces s); imported := imported s;
      created := S (created s); loads := loads s; done := done s; links := links s; backs := backs s;
-     serr := serr s |}.
+     reflangs := reflangs s; slangs := slangs s; serr := serr s |}.
 
+(* ---------------------------------------------------------------- referenced languages *)
+(* A class of the meta-model of a referenced language: namespace "@" ++ language. *)
+Definition AT : N := 64%N.
+Definition ext_lookup (langs : list (list N * list (list N))) (lang n : list N) : option cls :=
+  match aget lang langs with
+  | Some rules => if mem_str n rules then Some {| c_id := 0; c_ns := AT :: lang; c_name := n |} else None
+  | None => None
+  end.
+(* visit_reference_stm: referenced_languages[alias] = language *)
+Definition add_refs (refs : list (list N * list N)) (s : st) : st :=
+  {| spaces := spaces s; imported := imported s; created := created s; loads := loads s;
+     done := done s; links := links s; backs := backs s;
+     reflangs := fold_left (fun d p => aset (fst p) (snd p) d) refs (reflangs s); slangs := slangs s; serr := serr s |}.
 (* ---------------------------------------------------------------- __getitem__ *)
 Definition lookup_in (s : st) (ns name : list N) : option cls :=
   match aget ns (spaces s) with Some d => aget name d | None => None end.
@@ -209,10 +233,18 @@ Fixpoint first_def (s : st) (nss : list (list N)) (name : list N) : option cls :
 Definition imports_of (s : st) (cur : list N) : list (list N) :=
   match aget cur (imported s) with Some l => l | None => [] end.
 
+(* the qualified branch of __getitem__: an alias of a referenced language first, otherwise a
+   grammar-file namespace *)
+Definition lookup_qual (s : st) (q n : list N) : option cls :=
+  match aget q (reflangs s) with
+  | Some lang => ext_lookup (slangs s) lang n
+  | None => lookup_in s q n
+  end.
+
 (* the documented look-up *)
 Definition lookup_doc (s : st) (cur name : list N) : option cls :=
   match rsplit1 name with
-  | Some (q, n) => lookup_in s q n
+  | Some (q, n) => lookup_qual s q n
   | None => match lookup_in s cur name with
             | Some c => Some c
             | None => first_def s (imports_of s cur) name
@@ -236,7 +268,7 @@ Fixpoint run_steps (steps : list lstep) (s : st) (cur name : list N) : option cl
 
 Definition lookup (s : st) (cur name : list N) : option cls :=
   match (if qualified_split_last then rsplit1 name else split1 name) with
-  | Some (q, n) => lookup_in s q n
+  | Some (q, n) => lookup_qual s q n
   | None => run_steps lookup_steps s cur name
   end.
 
@@ -250,7 +282,7 @@ Definition unresolved (cref : bool) (ls : list link) : list (list N) :=
 
 Definition add_links (ls : list link) (s : st) : st :=
   {| spaces := spaces s; imported := imported s; created := created s; loads := loads s;
-     done := done s; links := links s ++ ls; backs := backs s; serr := serr s |}.
+     done := done s; links := links s ++ ls; backs := backs s; reflangs := reflangs s; slangs := slangs s; serr := serr s |}.
 
 (* second_textx_model of the grammar in namespace ns: _resolve_rule_refs (raises on the first
    unknown rule), then _resolve_cls_refs (raises on the first unknown class) *)
@@ -278,19 +310,32 @@ Definition new_import_doc (rec : list N -> st -> st) (stk : list (list N)) (cur 
 
 (* as found in the source: the import is registered on every import statement, or (if the
    source only does it inside the load-once guard) only when the file is actually loaded *)
-Definition new_import (rec : list N -> st -> st) (stk : list (list N)) (cur imp : list N) (s : st) : st :=
-  if register_import_always then new_import_doc rec stk cur imp s
-  else
-    if has_err s then s else
-    let a := abs_import cur imp in
-    if has_ns s a
-    then (if mem_str a stk then note_back cur a s else s)
-    else let s1 := rec a (enter a s) in if has_err s1 then s1 else add_imported cur a s1.
+Definition nop_eqb (a b : nop) : bool :=
+  match a, b with NEnter, NEnter | NLoad, NLoad | NLeave, NLeave => true | _, _ => false end.
+Fixpoint nops_eqb (a b : list nop) : bool :=
+  match a, b with
+  | [], [] => true
+  | x :: a', y :: b' => nop_eqb x y && nops_eqb a' b'
+  | _, _ => false
+  end.
+(* the namespace stack discipline of the source around the nested load: enter, load, leave.
+   The model represents the stack by the nesting of loads, which is only right for that
+   discipline; any other statement list found in the source is outside the model. *)
+Definition stack_balanced : bool := nops_eqb nested_ops [NEnter; NLoad; NLeave].
+
+Definition new_import (main : list N) (rec : list N -> st -> st) (stk : list (list N)) (cur imp : list N) (s : st) : st :=
+  if negb stack_balanced then (if has_err s then s else set_err EFuel s) else
+  if has_err s then s else
+  let a := abs_import_src main cur imp in
+  if has_ns s a
+  then (let s1 := if mem_str a stk then note_back cur a s else s in
+        if register_import_always then add_imported cur a s1 else s1)
+  else let s1 := rec a (enter a s) in if has_err s1 then s1 else add_imported cur a s1.
 
 (* language_from_str for the grammar file of namespace ns (already entered):
    import statements first (each loads its file completely, both passes), then the rule
    names of this file, then this file's second pass. *)
-Fixpoint load (fuel : nat) (fs : fsys) (stk : list (list N)) (ns : list N) (s : st) : st :=
+Fixpoint load_doc (fuel : nat) (fs : fsys) (stk : list (list N)) (ns : list N) (s : st) : st :=
   if has_err s then s else
   match aget ns fs with
   | None => set_err (EFileNotFound ns) s
@@ -299,16 +344,46 @@ Fixpoint load (fuel : nat) (fs : fsys) (stk : list (list N)) (ns : list N) (s : 
       | O => set_err EFuel s
       | S fuel' =>
           let s0 := log_load ns s in
-          let s1 := fold_left (fun s imp => new_import (load fuel' fs (ns :: stk)) (ns :: stk) ns imp s)
+          let s1 := fold_left (fun s imp => new_import_doc (load_doc fuel' fs (ns :: stk)) (ns :: stk) ns imp s)
                               (gimports f) s0 in
           let s2 := fold_left (fun s r => new_class ns r s) (grules f) s1 in
           second_pass ns f s2
       end
   end.
 
+(* The same driven by the facts found in the source: the order in which the import statements
+   are visited, and whether the second pass of a grammar runs before its load returns (i.e.,
+   for an imported grammar, inside _new_import, before the importer continues) or is deferred
+   until every file has been visited. *)
+Fixpoint load (main : list N) (fuel : nat) (fs : fsys) (stk : list (list N)) (ns : list N) (s : st) : st :=
+  if has_err s then s else
+  match aget ns fs with
+  | None => set_err (EFileNotFound ns) s
+  | Some f =>
+      match fuel with
+      | O => set_err EFuel s
+      | S fuel' =>
+          let s0 := add_refs (grefs f) (log_load ns s) in
+          let s1 := fold_left (fun s imp => new_import main (load main fuel' fs (ns :: stk)) (ns :: stk) ns imp s)
+                              (if imports_in_text_order then gimports f else rev (gimports f)) s0 in
+          let s2 := fold_left (fun s r => new_class ns r s) (grules f) s1 in
+          if second_pass_inside_import then second_pass ns f s2 else s2
+      end
+  end.
+
+Definition deferred_passes (fs : fsys) (s : st) : st :=
+  fold_left (fun s ns => match aget ns fs with Some f => second_pass ns f s | None => s end) (loads s) s.
+
 (* metamodel_from_file(main) *)
-Definition load_main (fs : fsys) (main : list N) : st :=
-  load (S (length fs)) fs [] main (enter main init).
+Definition load_main_doc (fs : fsys) (main : list N) : st :=
+  load_doc (S (length fs)) fs [] main (enter main init).
+Definition load_main_with (langs : list (list N * list (list N))) (fs : fsys) (main : list N) : st :=
+  let s := load main (S (length fs)) fs [] main (enter main (init_with langs)) in
+  if second_pass_inside_import then s else deferred_passes fs s.
+Definition load_main (fs : fsys) (main : list N) : st := load_main_with [] fs main.
+
+(* no grammar file has a `reference` statement *)
+Definition no_refs (fs : fsys) : Prop := forall ns f, aget ns fs = Some f -> grefs f = [].
 
 (* ---------------------------------------------------------------- the documented resolution *)
 Definition defines (fs : fsys) (ns name : list N) : bool :=
@@ -353,19 +428,19 @@ Definition link_ok (fs : fsys) (l : link) : Prop :=
 (* witnesses of the known finding (corpus/C25/cycle_silent.json, cycle_unexisting.json) *)
 Definition ex_rule (n : list N) (refs : list (list N)) : rule := {| rname := n; rrefs := refs; rcrefs := [] |}.
 Definition ex_silent : fsys :=
-  [ ([97], {| gimports := [[98]]; grules := [ex_rule [77] [[88]; [89]]; ex_rule [88] []] |});
-    ([98], {| gimports := [[97]; [99]]; grules := [ex_rule [89] [[88]]] |});
-    ([99], {| gimports := []; grules := [ex_rule [88] []] |}) ]%N.
+  [ ([97], {| grefs := []; gimports := [[98]]; grules := [ex_rule [77] [[88]; [89]]; ex_rule [88] []] |});
+    ([98], {| grefs := []; gimports := [[97]; [99]]; grules := [ex_rule [89] [[88]]] |});
+    ([99], {| grefs := []; gimports := []; grules := [ex_rule [88] []] |}) ]%N.
 Definition ex_unexisting : fsys :=
-  [ ([97], {| gimports := [[98]]; grules := [ex_rule [77] [[88]; [89]]; ex_rule [88] []] |});
-    ([98], {| gimports := [[97]]; grules := [ex_rule [89] [[88]]] |}) ]%N.
+  [ ([97], {| grefs := []; gimports := [[98]]; grules := [ex_rule [77] [[88]; [89]]; ex_rule [88] []] |});
+    ([98], {| grefs := []; gimports := [[97]]; grules := [ex_rule [89] [[88]]] |}) ]%N.
 
 (* a diamond: a imports b, c; both import d; overlapping rule names; one qualified reference *)
 Definition ex_diamond : fsys :=
-  [ ([97], {| gimports := [[98]; [99]]; grules := [ex_rule [77] [[88]; [89]; [87]; [99;46;87]]; ex_rule [89] []] |});
-    ([98], {| gimports := [[100]]; grules := [ex_rule [88] [[87]]; ex_rule [89] []] |});
-    ([99], {| gimports := [[100]]; grules := [ex_rule [89] [[87]]; ex_rule [87] []] |});
-    ([100], {| gimports := []; grules := [ex_rule [87] []; ex_rule [88] []] |}) ]%N.
+  [ ([97], {| grefs := []; gimports := [[98]; [99]]; grules := [ex_rule [77] [[88]; [89]; [87]; [99;46;87]]; ex_rule [89] []] |});
+    ([98], {| grefs := []; gimports := [[100]]; grules := [ex_rule [88] [[87]]; ex_rule [89] []] |});
+    ([99], {| grefs := []; gimports := [[100]]; grules := [ex_rule [89] [[87]]; ex_rule [87] []] |});
+    ([100], {| grefs := []; gimports := []; grules := [ex_rule [87] []; ex_rule [88] []] |}) ]%N.
 
 (* number of rules of the grammar file of a namespace / of a list of namespaces *)
 Definition nrules (fs : fsys) (ns : list N) : nat :=
@@ -389,5 +464,5 @@ Definition safe (fs : fsys) (s : st) : bool := forallb (safe_back fs) (backs s).
 
 (* a harmless cycle: a imports b and itself; b imports a back but only uses its own rules and built-ins *)
 Definition ex_harmless : fsys :=
-  [ ([97], {| gimports := [[98]; [97]]; grules := [ex_rule [77] [[88]; [89]]; ex_rule [88] []] |});
-    ([98], {| gimports := [[97]]; grules := [ex_rule [89] [[89]; [73;78;84]]] |}) ]%N.
+  [ ([97], {| grefs := []; gimports := [[98]; [97]]; grules := [ex_rule [77] [[88]; [89]]; ex_rule [88] []] |});
+    ([98], {| grefs := []; gimports := [[97]]; grules := [ex_rule [89] [[89]; [73;78;84]]] |}) ]%N.
